@@ -349,6 +349,11 @@ func (R *Renderer) render(v ssa.Value) string {
 		}
 		return fmt.Sprintf("%s#%d", R.V(x.Tuple), x.Index)
 	case *ssa.Call:
+		// errors.As(err, &target) with a local target of type *T is the comma-ok assertion err.(*T)
+		// for errors that are not wrapped, and finds at least as many otherwise
+		if al, e := errorsAsCall(x); al != nil {
+			return "is<" + short(types.TypeString(al.Type().Underlying().(*types.Pointer).Elem(), nil)) + ">(" + R.V(e) + ")"
+		}
 		return R.call(x)
 	case *ssa.BinOp:
 		if isRangeIndex(x) {
@@ -530,6 +535,10 @@ func (R *Renderer) load(x *ssa.UnOp) string {
 	case *ssa.IndexAddr:
 		return R.V(a.X) + "[" + R.idx(a.Index) + "]"
 	case *ssa.Alloc:
+		// the target of an errors.As: what the assertion yields
+		if e := errorsAsTarget(a); e != nil {
+			return "as<" + short(types.TypeString(a.Type().Underlying().(*types.Pointer).Elem(), nil)) + ">(" + R.V(e) + ")"
+		}
 		if !allocModifiedPiecewise(a) {
 			if val := reachingStore(a, x); val != nil {
 				return R.V(val)
@@ -1599,4 +1608,65 @@ func splitTopLevel(s, sep string) []string {
 		return nil
 	}
 	return append(out, s[start:])
+}
+
+// errorsAsCall: the call is errors.As(e, &local) with a local variable of pointer type as target;
+// returns the local and e.
+func errorsAsCall(c *ssa.Call) (*ssa.Alloc, ssa.Value) {
+	f := c.Call.StaticCallee()
+	if f == nil || f.Pkg == nil || f.Pkg.Pkg.Path() != "errors" || f.Name() != "As" || len(c.Call.Args) != 2 {
+		return nil, nil
+	}
+	mi, ok := c.Call.Args[1].(*ssa.MakeInterface)
+	if !ok {
+		return nil, nil
+	}
+	al, ok := mi.X.(*ssa.Alloc)
+	if !ok {
+		return nil, nil
+	}
+	if pt, ok := al.Type().Underlying().(*types.Pointer); !ok {
+		return nil, nil
+	} else if _, isPtr := pt.Elem().Underlying().(*types.Pointer); !isPtr {
+		return nil, nil
+	}
+	return al, c.Call.Args[0]
+}
+
+// errorsAsTarget: the local is the target of exactly one errors.As call and is assigned nowhere
+// else (but for its zero initialisation): the error value that call inspects.
+func errorsAsTarget(al *ssa.Alloc) ssa.Value {
+	if al.Referrers() == nil {
+		return nil
+	}
+	var e ssa.Value
+	n := 0
+	for _, u := range *al.Referrers() {
+		switch x := u.(type) {
+		case *ssa.MakeInterface:
+			if x.Referrers() == nil {
+				return nil
+			}
+			for _, w := range *x.Referrers() {
+				if c, ok := w.(*ssa.Call); ok {
+					if a, ev := errorsAsCall(c); a == al {
+						e = ev
+						n++
+						continue
+					}
+				}
+				return nil
+			}
+		case *ssa.Store:
+			if x.Addr == ssa.Value(al) {
+				if k, ok := x.Val.(*ssa.Const); !ok || k.Value != nil {
+					return nil
+				}
+			}
+		}
+	}
+	if n != 1 {
+		return nil
+	}
+	return e
 }
